@@ -194,4 +194,6 @@ def check(world, tier):
              sample={"obligation": o.kind + " " + o.detail, "at": o.loc, "proven": o.proven})
     from . import C07
     import_clause(world, tier, e_, C07, "C07.d", ("send-ends-only-when-window-empty",), "sender-finishes-only-with-empty-window")
+    # the socket's read time-out is the negotiated one (otherwise the retry budget is spent before a retransmission is due)
+    import_clause(world, tier, a, C07, "C07.a", ("read-timeout", "channel-wait", "os-receive"), "receive time-out = negotiated time-out")
     return rep
